@@ -5,6 +5,7 @@ import (
 	"net"
 	"net/http"
 	"regexp"
+	"sync"
 	"time"
 
 	gws "github.com/gobwas/ws"
@@ -24,6 +25,26 @@ type httpServer struct {
 type wsConn struct {
 	*conn
 	rem []byte
+	// wmu makes a frame one piece on the wire: a data frame goes out in two writes (header, payload),
+	// and the reading side answers the client's PINGs with PONGs of its own in between
+	wmu sync.Mutex
+}
+
+// wsControlRW is what the reading side hands to the frame reader: control frames are answered
+// through it
+type wsControlRW struct {
+	c *wsConn
+}
+
+func (rw wsControlRW) Read(b []byte) (int, error) {
+	return rw.c.Conn.Read(b)
+}
+
+func (rw wsControlRW) Write(b []byte) (int, error) {
+	rw.c.wmu.Lock()
+	defer rw.c.wmu.Unlock()
+
+	return rw.c.Conn.Write(b)
 }
 
 // Read ...
@@ -39,7 +60,7 @@ func (c *wsConn) Read(b []byte) (int, error) {
 		return n, nil
 	}
 
-	data, err := wsutil.ReadClientBinary(c.Conn)
+	data, err := wsutil.ReadClientBinary(wsControlRW{c})
 	n := copy(b, data)
 	if n < len(data) {
 		c.rem = data[n:]
@@ -52,7 +73,10 @@ func (c *wsConn) Read(b []byte) (int, error) {
 
 // Write ...
 func (c *wsConn) Write(b []byte) (int, error) {
+	c.wmu.Lock()
 	err := wsutil.WriteServerBinary(c.conn, b)
+	c.wmu.Unlock()
+
 	n := 0
 	if err == nil {
 		n = len(b)
